@@ -93,21 +93,194 @@ def user_op(src):
     if m.group(1) not in ("true", "false", "0", "1"):
         raise TranslateError("commute argument of MPI_Op_create is not a literal: " + m.group(1))
     commute = m.group(1) in ("true", "1")
-    m2 = re.search(r"static void operation\s*\(Type \*(\w+), Type \*(\w+), int \*(\w+), MPI_Datatype\*\)\s*\{", src)
+    m2 = re.search(r"static\s+void\s+operation\s*\(\s*Type\s*\*\s*(\w+)\s*,\s*Type\s*\*\s*(\w+)\s*,\s*int\s*\*\s*(\w+)\s*,\s*MPI_Datatype\s*\*\s*\w*\s*\)\s*\{", src)
     if not m2:
         raise TranslateError("Generic_MPI_Op::operation not found")
     body = src[m2.end():balanced(src, m2.end() - 1) - 1]
-    a_in, a_inout, a_len, body = m2.group(1), m2.group(2), m2.group(3), re.sub(r"\s+", " ", body).strip()
-    pat = (r"BinaryFunction func; for \(int i=0; i< \*%s; \+\+i, \+\+%s, \+\+%s\) \{ Type temp; temp = func\(\*(\w+), \*(\w+)\); \*(\w+) = temp; \}"
-           % (a_len, a_in, a_inout))
-    m3 = re.fullmatch(pat, body)
-    if not m3:
-        raise TranslateError("body of Generic_MPI_Op::operation not recognised: " + body[:200])
+    return (commute,) + user_op_body(m2.group(1), m2.group(2), m2.group(3), body)
+
+
+def _stmts(block):
+    """top-level statements of a block; a compound statement `for (..) {..}` / `{..}` ends at its closing brace"""
+    depth, cur, out = 0, "", []
+    for c in block:
+        if c in "([{":
+            depth += 1
+        elif c in ")]}":
+            depth -= 1
+        cur += c
+        if depth == 0 and (c == ";" or (c == "}" and not re.match(r"\s*(=|\w+ ?=)", cur[::-1]) and re.search(r"\)\s*\{|^\s*\{|\belse\s*\{|\bdo\s*\{", cur))):
+            out.append(re.sub(r"\s+", " ", cur).strip().rstrip(";").strip())
+            cur = ""
+    if cur.strip():
+        out.append(re.sub(r"\s+", " ", cur).strip())
+    return [x for x in out if x]
+
+
+def _unparen(t):
+    while t.startswith("(") and balanced(t, 0, "(", ")") == len(t):
+        t = t[1:-1]
+    return t
+
+
+def user_op_body(a_in, a_inout, a_len, body):
+    """R5: the element loop of the MPI callback, in any of its equivalent spellings:
+         [BinaryFunction f;] [const int n = *len;]
+         for (int i = 0; i < n; ++i [, ++in, ++inout]) { [Type t;] t = f(A, B); C = t; }      or   C = f(A, B);
+       A, B, C are `*p` for a pointer advanced in the loop header and `p[i]` / `*(p+i)` for one that is not; counting down
+       (`for (int i = n; i > 0; --i, ++in, ++inout)`) is the same walk when `i` is not used in the body.
+       -> ([role of A, role of B], role of C).  `*p` of a pointer that is not advanced, `p[i]` of one that is, a bound other than
+       `*len`, a second statement with an effect: TranslateError."""
+    def fail(msg):
+        raise TranslateError("body of Generic_MPI_Op::operation not recognised (%s): %s" % (msg, re.sub(r"\s+", " ", body).strip()[:200]))
     role = {a_in: "in", a_inout: "inout"}
-    for g in m3.groups():
-        if g not in role:
-            raise TranslateError("unknown operand %s in Generic_MPI_Op::operation" % g)
-    return commute, [role[m3.group(1)], role[m3.group(2)]], role[m3.group(3)]
+    sts = _stmts(body)
+    if not sts:
+        fail("empty")
+    func, bound_alias = None, set()
+    for st in sts[:-1]:
+        m = re.fullmatch(r"(?:const )?BinaryFunction (%s)(?: ?\{ ?\}| ?= ?BinaryFunction ?(?:\( ?\)|\{ ?\}))?" % IDENT_, st)
+        if m and func is None:
+            func = m.group(1)
+            continue
+        m = re.fullmatch(r"(?:const )?(?:int|auto) (?:const )?(%s) ?= ?\* ?%s" % (IDENT_, re.escape(a_len)), st)
+        if m:
+            bound_alias.add(m.group(1))
+            continue
+        fail("statement in front of the loop: " + st)
+    loop = sts[-1]
+    m = re.match(r"for ?\(", loop)
+    if not m:
+        fail("no for loop")
+    e = balanced(loop, m.end() - 1, "(", ")")
+    header, lbody = loop[m.end():e - 1], loop[e:].strip()
+    hp = [q.strip() for q in header.split(";")]
+    if len(hp) != 3:
+        fail("loop header")
+    init, cond, incr = hp
+
+    def is_bound(t):
+        t = _nows(t)
+        return t == "*" + a_len or t in bound_alias
+    im = re.fullmatch(r"int (%s) ?= ?(.*)" % IDENT_, init)
+    if not im:
+        fail("loop initialisation")
+    iv = im.group(1)
+    if iv in role or iv == a_len or iv in bound_alias:
+        fail("loop variable shadows a parameter")
+    c = _nows(cond)
+    incs = [_nows(q) for q in split_top(incr)]
+    steps = {}
+    for q in incs:
+        mm = re.fullmatch(r"\+\+(%s)|(%s)\+\+|(%s)\+=1" % ((IDENT_,) * 3), q)
+        if mm:
+            steps.setdefault(mm.group(1) or mm.group(2) or mm.group(3), []).append(+1)
+            continue
+        mm = re.fullmatch(r"--(%s)|(%s)--|(%s)-=1" % ((IDENT_,) * 3), q)
+        if mm:
+            steps.setdefault(mm.group(1) or mm.group(2) or mm.group(3), []).append(-1)
+            continue
+        fail("loop increment " + q)
+    if any(len(v) != 1 for v in steps.values()) or iv not in steps:
+        fail("loop increments")
+    walked = set(k for k in steps if k != iv)
+    if not walked <= set(role) or any(steps[k] != [1] for k in walked):
+        fail("loop advances something other than the two buffers")
+    up = None
+    if _nows(im.group(2)) == "0" and steps[iv] == [1]:
+        mm = re.fullmatch(r"%s(<|!=)(.*)" % re.escape(iv), c) or None
+        if mm and is_bound(mm.group(2)):
+            up = True
+        mm = re.fullmatch(r"(.*)(>|!=)%s" % re.escape(iv), c)
+        if mm and is_bound(mm.group(1)):
+            up = True
+    elif is_bound(im.group(2)) and steps[iv] == [-1]:
+        if c in ("%s>0" % iv, "0<%s" % iv, "%s!=0" % iv, "0!=%s" % iv):
+            up = False
+    if up is None:
+        fail("the loop does not run over the elements 0 .. *len-1")
+    if lbody.startswith("{"):
+        if balanced(lbody, 0) != len(lbody):
+            fail("code after the loop")
+        lbody = lbody[1:-1]
+    bs = _stmts(lbody)
+    for n in list(bound_alias) + [a_len]:
+        if any(re.search(r"\b%s\b" % re.escape(n), q) for q in bs):
+            fail("the loop body uses the element count")
+
+    def elem(t):
+        t = _unparen(_nows(t))
+        mm = re.fullmatch(r"\*(%s)" % IDENT_, t)
+        if mm and mm.group(1) in role:
+            if mm.group(1) not in walked:
+                fail("`*%s` but %s is not advanced" % (mm.group(1), mm.group(1)))
+            return role[mm.group(1)]
+        mm = re.fullmatch(r"(%s)\[(%s)\]|\*\((%s)\+(%s)\)|\*\((%s)\+(%s)\)" % ((IDENT_,) * 6), t)
+        if mm:
+            g = mm.groups()
+            pairs = [(g[0], g[1]), (g[2], g[3]), (g[5], g[4])]
+            for (pp, ii) in pairs:
+                if pp in role and ii == iv:
+                    if pp in walked or not up:
+                        fail("`%s[%s]` in a loop that also advances %s / counts down" % (pp, iv, pp))
+                    return role[pp]
+        fail("operand / target %s is not the current element of a buffer" % t)
+
+    def call(t):
+        t = _nows(t)
+        mm = re.fullmatch(r"(%s|BinaryFunction\(\)|BinaryFunction\{\})\((.*)\)" % IDENT_, t)
+        if not mm:
+            fail("no functor call: " + t)
+        f = mm.group(1)
+        if not ((func is not None and f == func) or (f.startswith("BinaryFunction") and len(f) > len("BinaryFunction"))):
+            fail("call of something other than the functor: " + t)
+        args = split_top(mm.group(2))
+        if len(args) != 2:
+            fail("functor called with %d arguments" % len(args))
+        return [elem(args[0]), elem(args[1])]
+
+    def assign(st):
+        d, k = 0, None
+        for j, ch in enumerate(st):
+            if ch in "([":
+                d += 1
+            elif ch in ")]":
+                d -= 1
+            elif ch == "=" and d == 0 and st[j + 1:j + 2] != "=" and st[j - 1:j] not in "=!<>+-*/":
+                k = j
+                break
+        if k is None:
+            fail("not an assignment: " + st)
+        return st[:k].strip(), st[k + 1:].strip()
+    if not up and any(re.search(r"\b%s\b" % re.escape(iv), q) for q in bs):
+        fail("the body uses the counter of a count-down loop")
+    temp = None
+    if len(bs) == 1:
+        lhs, rhs = assign(bs[0])
+        return call(rhs), elem(lhs)
+    if len(bs) == 3:
+        mm = re.fullmatch(r"Type (%s)" % IDENT_, bs[0])
+        if not mm:
+            fail("first statement of the body")
+        temp = mm.group(1)
+        lhs, rhs = assign(bs[1])
+        if _nows(lhs) != temp:
+            fail("the functor's result is not assigned to the temporary")
+        args = call(rhs)
+    elif len(bs) == 2:
+        mm = re.fullmatch(r"(?:const )?Type (?:const )?(%s) ?(?:= ?(.*)|\((.*)\)|\{(.*)\})" % IDENT_, bs[0])
+        if not mm:
+            fail("first statement of the body")
+        temp = mm.group(1)
+        args = call(mm.group(2) or mm.group(3) or mm.group(4))
+    else:
+        fail("%d statements in the body" % len(bs))
+    if temp in role or temp == iv:
+        fail("temporary shadows")
+    lhs, rhs = assign(bs[-1])
+    if _unparen(_nows(rhs)) not in (temp, "std::move(%s)" % temp):
+        fail("the stored value is not the temporary")
+    return args, elem(lhs)
 
 
 # ------------------------------------------------------------------------------------------------
